@@ -45,6 +45,7 @@ func runC04(c *Ctx) {
 	c05R3(c, "C04.R5")
 	c04R6(c)
 	c04Effects(c)
+	c04PendingRules(c)
 	// what the observer applies: only entries newer than everything applied
 	// for that node, so a withdrawn endpoint cannot be resurrected by a late delta
 	if g := newGossipAnchors(c.P); g.ok {
@@ -670,7 +671,7 @@ func c04Effects(c *Ctx) {
 	if a == nil {
 		return
 	}
-	c.floor("C04.R10", 5)
+	c.floor("C04.R10", 7)
 	type spec struct {
 		fn   string
 		what string
@@ -759,6 +760,50 @@ func c04Effects(c *Ctx) {
 		}
 		c.check(bad == "" && nTrue > 0, "C04.R10", fnName(fn)+"/success-means-written", fn.Pos(), "`"+sp.what+"` happens on every path that reports success", bad+": the syncer believes the routing table followed gossip while it did not")
 	}
+	// the exported wrappers report exactly what their locked helper reported
+	for _, w := range []struct{ fn, helper string }{{"State.UpdateRemoteEndpoint", "State).updateRemoteEndpointLocked"}, {"State.RemoveRemoteEndpoint", "State).removeRemoteEndpointLocked"}} {
+		fn := p.Func(clPkg, w.fn)
+		if fn == nil {
+			c.fail("C04.R10", "anchor/"+w.fn, token.NoPos, "not found")
+			continue
+		}
+		fs := computeFacts(fn)
+		var helper *ssa.Call
+		allInstrs(fn, func(i ssa.Instruction) {
+			if cl, ok := i.(*ssa.Call); ok && strings.HasSuffix(commonName(&cl.Call), w.helper) {
+				helper = cl
+			}
+		})
+		bad := ""
+		if helper == nil {
+			bad = "the locked helper is not called"
+		} else {
+			// arguments forwarded unchanged
+			_, args := recvAndArgs(&helper.Call)
+			for k, a := range args {
+				if k+1 >= len(fn.Params) || strip(a) != ssa.Value(fn.Params[k+1]) {
+					bad = "the helper is not called with the wrapper's own arguments"
+				}
+			}
+			for _, r := range returnsOf(fn) {
+				rv := returnValues(r)
+				if len(rv) == 0 {
+					continue
+				}
+				b, isK := constBool(rv[0])
+				if !isK {
+					if strip(rv[0]) != ssa.Value(helper) {
+						bad = "returns something other than the helper's result at " + p.pos(r.Pos())
+					}
+					continue
+				}
+				if !anyFact(fs.At(r.Block()), func(f Fact) bool { return f.V == ssa.Value(helper) && f.T == b }) {
+					bad = fmt.Sprintf("returns %v at %s without the helper having reported %v", b, p.pos(r.Pos()), b)
+				}
+			}
+		}
+		c.check(bad == "", "C04.R10", fnName(fn)+"/reports-helper-result", fn.Pos(), "true exactly when the table was updated", bad+": the syncer applies the change to the wrong place (table vs pending node)")
+	}
 	// lookups and sweeps over the routing table visit every node
 	loopsComplete(c, "C04.R11", methodsOf(p, clPkg, "State"), 3)
 	// AddNode stores the node under its id on the non-local path
@@ -827,4 +872,230 @@ func callerFacts(p *Prog, fn *ssa.Function) []Fact {
 		return nil
 	}
 	return computeFacts(sites[0].Parent()).At(sites[0].Block())
+}
+
+// c04PendingRules (C04.R12): a node first heard of becomes a pending node, and
+// a pending node records the addresses it is told, so that it can be promoted.
+func c04PendingRules(c *Ctx) {
+	p := c.P
+	a := newClusterAnchors(c)
+	if a == nil {
+		return
+	}
+	c.floor("C04.R12", 4)
+	pending := p.Field(sgPkg, "syncer", "pendingNodes")
+	if pending == nil {
+		c.fail("C04.anchor", "syncer.pendingNodes", token.NoPos, "not found")
+		return
+	}
+	pendingLookup := func(f Fact, nodeID ssa.Value) (bool, bool) {
+		ex, ok := f.V.(*ssa.Extract)
+		if !ok || ex.Index != 1 {
+			return false, false
+		}
+		lk, ok := ex.Tuple.(*ssa.Lookup)
+		if !ok {
+			return false, false
+		}
+		if _, ok := loadedField(lk.X, pending); !ok || strip(lk.Index) != nodeID {
+			return false, false
+		}
+		return true, f.T
+	}
+	inTable := func(f Fact, nodeID ssa.Value) (bool, bool) {
+		ex, ok := f.V.(*ssa.Extract)
+		if !ok || ex.Index != 1 {
+			return false, false
+		}
+		cl, ok := ex.Tuple.(*ssa.Call)
+		if !ok || commonName(&cl.Call) != stateCall("Node") || strip(cl.Call.Args[1]) != nodeID {
+			return false, false
+		}
+		return true, f.T
+	}
+	// --- OnJoin ---
+	if fn := p.Func(sgPkg, "syncer.OnJoin"); fn != nil {
+		c.analysed(fnName(fn))
+		nodeID := ssa.Value(fn.Params[1])
+		isInsert := func(i ssa.Instruction) bool {
+			mu, ok := i.(*ssa.MapUpdate)
+			if !ok {
+				return false
+			}
+			if _, ok := loadedField(mu.Map, pending); !ok || strip(mu.Key) != nodeID {
+				return false
+			}
+			al, ok := strip(mu.Value).(*ssa.Alloc)
+			if !ok {
+				return false
+			}
+			idOK := false
+			for _, fsx := range fieldStores(al) {
+				if fsx.f == a.nID && strip(fsx.st.Val) == nodeID {
+					idOK = true
+				}
+			}
+			return idOK
+		}
+		paths, complete := enumPathsAt(fn.Blocks[0], 0, isInsert, nil, nil, 400)
+		bad := ""
+		if !complete {
+			bad = "too many paths"
+		}
+		nIns := 0
+		for _, pa := range paths {
+			if pa.endWhy != "return" {
+				continue
+			}
+			if len(pa.seen) > 0 {
+				nIns++
+				// inserted only for an unknown, remote node
+				for _, f := range pa.facts {
+					if skipFactAllowed(f, fn) == "local id" {
+						bad = "the local node is made pending"
+					}
+					if is, t := inTable(f, nodeID); is && t {
+						bad = "a node already in the routing table is made pending again"
+					}
+					if is, t := pendingLookup(f, nodeID); is && t {
+						bad = "a pending node is replaced by an empty one (what was recorded about it is lost)"
+					}
+				}
+				continue
+			}
+			ok := false
+			for _, f := range pa.facts {
+				if skipFactAllowed(f, fn) == "local id" {
+					ok = true
+				}
+				if is, t := inTable(f, nodeID); is && t {
+					ok = true
+				}
+				if is, t := pendingLookup(f, nodeID); is && t {
+					ok = true
+				}
+			}
+			if !ok {
+				bad = "a path returns at " + p.pos(pa.end.Pos()) + " without recording the joined node as pending and without a reason (local id, already in the table, already pending); facts " + factStrings(pa.facts)
+			}
+		}
+		c.check(bad == "" && nIns > 0, "C04.R12", fnName(fn)+"/join-makes-pending", fn.Pos(), "pendingNodes[nodeID] = &Node{ID: nodeID} exactly for unknown remote nodes", "a newly discovered node is not tracked: its addresses and endpoints are dropped as 'unknown node' and it never enters the routing table: "+bad)
+	} else {
+		c.fail("C04.anchor", "syncer.OnJoin", token.NoPos, "not found")
+	}
+	// --- OnUpsertKey: address keys ---
+	if fn := p.Func(sgPkg, "syncer.OnUpsertKey"); fn != nil {
+		c.analysed(fnName(fn))
+		fs := computeFacts(fn)
+		nodeID, keyP, valP := ssa.Value(fn.Params[1]), ssa.Value(fn.Params[2]), ssa.Value(fn.Params[3])
+		keyIs := func(f Fact, k string) bool {
+			return cmpFact(f, token.EQL, func(v ssa.Value) bool { return strip(v) == keyP }, func(v ssa.Value) bool { s, ok := constString(v); return ok && s == k })
+		}
+		for _, sp := range []struct {
+			key string
+			f   *types.Var
+		}{{"proxy_addr", a.nProxy}, {"admin_addr", a.nAdmin}} {
+			var stores []ssa.Instruction
+			allInstrs(fn, func(i ssa.Instruction) {
+				st, ok := i.(*ssa.Store)
+				if !ok {
+					return
+				}
+				base, ok := addrOfField(st.Addr, sp.f)
+				if !ok || strip(st.Val) != valP {
+					return
+				}
+				// the node written is pendingNodes[nodeID]
+				ex, ok := strip(base).(*ssa.Extract)
+				if !ok {
+					return
+				}
+				lk, ok := ex.Tuple.(*ssa.Lookup)
+				if !ok {
+					return
+				}
+				if _, ok := loadedField(lk.X, pending); !ok || strip(lk.Index) != nodeID {
+					return
+				}
+				if anyFact(fs.At(st.Block()), func(f Fact) bool { return keyIs(f, sp.key) }) {
+					stores = append(stores, i)
+				}
+			})
+			isStore := func(i ssa.Instruction) bool {
+				for _, s := range stores {
+					if s == i {
+						return true
+					}
+				}
+				return false
+			}
+			bad := ""
+			if len(stores) == 0 {
+				bad = "no `pending." + sp.f.Name() + " = value` under key == \"" + sp.key + "\""
+			} else {
+				paths, complete := enumPathsAt(fn.Blocks[0], 0, isStore, nil, nil, 3000)
+				if !complete {
+					bad = "too many paths"
+				}
+				for _, pa := range paths {
+					if pa.endWhy != "return" || len(pa.seen) > 0 || infeasible(pa.facts) {
+						continue
+					}
+					if !anyFact(pa.facts, func(f Fact) bool { return keyIs(f, sp.key) }) {
+						continue
+					}
+					// key == "proxy_addr" together with HasPrefix(key, "endpoint:") cannot happen
+					if anyFact(pa.facts, func(f Fact) bool {
+						cl, ok := f.V.(*ssa.Call)
+						if !ok || !f.T || commonName(&cl.Call) != "strings.HasPrefix" || strip(cl.Call.Args[0]) != keyP {
+							return false
+						}
+						pre, ok := constString(cl.Call.Args[1])
+						return ok && !strings.HasPrefix(sp.key, pre)
+					}) {
+						continue
+					}
+					ok := false
+					for _, f := range pa.facts {
+						if skipFactAllowed(f, fn) == "local id" {
+							ok = true
+						}
+						if is, t := inTable(f, nodeID); is && t {
+							ok = true // immutable once in the table
+						}
+						if is, t := pendingLookup(f, nodeID); is && !t {
+							ok = true // unknown node
+						}
+					}
+					if !ok {
+						bad = "a path carrying key == \"" + sp.key + "\" returns at " + p.pos(pa.end.Pos()) + " without recording the address on the pending node and without a reason (local id, node already in the table, unknown node); facts " + factStrings(pa.facts)
+					}
+				}
+			}
+			c.check(bad == "", "C04.R12", fnName(fn)+"/pending-records-"+sp.key, fn.Pos(), "pendingNodes[nodeID]."+sp.f.Name()+" = value on every path that carries the key for a pending node", "a pending node never learns its "+sp.key+" and is never promoted into the routing table: "+bad)
+		}
+	} else {
+		c.fail("C04.anchor", "syncer.OnUpsertKey", token.NoPos, "not found")
+	}
+	// a pending node's endpoint map is allocated only where it is nil
+	for _, fn := range methodsOf(p, sgPkg, "syncer") {
+		fsx := computeFacts(fn)
+		allInstrs(fn, func(i ssa.Instruction) {
+			st, ok := i.(*ssa.Store)
+			if !ok {
+				return
+			}
+			if _, ok := addrOfField(st.Addr, a.nEndpts); !ok {
+				return
+			}
+			if _, fresh := strip(st.Val).(*ssa.MakeMap); !fresh {
+				return
+			}
+			isNil := anyFact(fsx.At(st.Block()), func(f Fact) bool {
+				return cmpFact(f, token.EQL, func(v ssa.Value) bool { _, ok := loadedField(v, a.nEndpts); return ok }, isNilConst)
+			})
+			c.check(isNil, "C04.R12", fnName(fn)+"/allocates-endpoints-only-when-nil", st.Pos(), "Endpoints = make(...) only under Endpoints == nil",
+				"a pending node's endpoint map is replaced by an empty one although it may hold endpoints (guard missing or inverted); facts "+factStrings(fsx.At(st.Block())))
+		})
+	}
 }
